@@ -1,8 +1,9 @@
 (* Model/CodecFloat.v — REAL / LREAL: Python floats are represented by their IEEE-754 binary64 bit
    pattern (a [Z] in [0, 2^64)).  Everything here is integer arithmetic on bit patterns, so the
-   codec model stays executable and axiom-free; the agreement of [round32]/[widen32]/[z_to_b64]
-   with Flocq's [binary_normalize] is stated and proved in Proofs/CodecFloatFlocq.v (the only
-   place where Flocq, hence the stdlib real-number axioms, is imported).
+   codec model stays executable and axiom-free; the agreement of [round32]/[widen32] with Flocq's
+   [binary_normalize] is proved in Proofs/CodecWireFloat.v (C07) and restated for C06 in
+   Proofs/CodecRTFloat.v (the only places where Flocq, hence the stdlib real-number axioms, is
+   imported); [z_to_b64] (float(int)) is tied by the correspondence only.
 
    Modelled primitives:
      struct.pack("<f", x)   = double -> single, round to nearest even; a finite double that rounds
